@@ -951,9 +951,55 @@ class ProcGen:
                 self.lines.append((ind, 'NB.append((%s, %s, %s))' % (r.slot, keep, bits)))
 
     # ---------------------------------------------------------------- render
-    def render(self, name, fan_slot, fan_var):
-        """Return the Python source of the process function."""
+    def render(self, name, wake_groups, slot_var):
+        """Return the Python source of the process function.
+
+        Wake-up of other processes is by *net change per execution*: the value
+        of every variable element this process may write (and somebody is
+        sensitive to) is snapshotted on entry and compared on exit; a reader is
+        woken only if a bit inside its read mask differs.  A glitch that is
+        restored within one execution wakes nobody.
+
+        wake_groups(slot, written_mask) -> [(mask or None, (pid, ...)), ...]
+            readers that can be affected by a write of `written_mask` to `slot`,
+            grouped by read mask (None = every bit of the element).
+        slot_var(slot) -> Var
+        """
+        ops = [x for x in self.lines if isinstance(x, WriteOp)]
+        dyn_vars = []
+        for op in ops:
+            if op.dyn and op.var not in dyn_vars:
+                dyn_vars.append(op.var)
+        dyn_ranges = [(v.slot, v.slot + v.nslots) for v in dyn_vars]
+        static_slots = []
+        for op in ops:
+            if not op.dyn and op.slot not in static_slots \
+                    and not any(lo <= op.slot < hi for lo, hi in dyn_ranges):
+                static_slots.append(op.slot)
+        pro, epi = [], []
+        for k in static_slots:
+            groups = wake_groups(k, self.writes.get(k, 0))
+            if not groups:
+                continue
+            pro.append('    _o%d = V[%d]' % (k, k))
+            if len(groups) == 1 and groups[0][0] is None:
+                epi.append('    if V[%d] != _o%d: %s' % (k, k, self._upd(groups[0][1])))
+            else:
+                epi.append('    _x = V[%d] ^ _o%d' % (k, k))
+                epi.append('    if _x:')
+                for m, pids in groups:
+                    if m is None:
+                        epi.append('        ' + self._upd(pids))
+                    else:
+                        epi.append('        if _x & %d: %s' % (m, self._upd(pids)))
+        for v in dyn_vars:
+            lo, hi = v.slot, v.slot + v.nslots
+            if not any(wake_groups(k, self.writes.get(k, 0)) for k in range(lo, hi)):
+                continue
+            pro.append('    _oa%d = V[%d:%d]' % (lo, lo, hi))
+            epi.append('    if V[%d:%d] != _oa%d: _wake_range(V, D, FM, %d, _oa%d)' % (lo, hi, lo, lo, lo))
         out = ['def %s(V=V, D=D, NB=NB):' % name]
+        out.extend(pro)
         if not self.lines:
             out.append('    pass')
         for item in self.lines:
@@ -969,10 +1015,8 @@ class ProcGen:
             if op.dyn:
                 out.append(pad + '_k = %s' % op.slot)
                 k = '_k'
-                fan = fan_var(op.var)
             else:
                 k = str(op.slot)
-                fan = fan_slot(op.slot)
             keep, off, w, tw = op.keep
             if keep is None:
                 val = op.val
@@ -980,15 +1024,12 @@ class ProcGen:
                 val = '_wrp(V[%s], %s, %s, %d, %d)' % (k, op.val, off, w, tw)
             else:
                 val = '(V[%s] & %s | %s)' % (k, keep, op.val)
-            if not fan:
-                out.append(pad + 'V[%s] = %s' % (k, val))
-            else:
-                if len(fan) == 1:
-                    upd = 'D.add(%d)' % fan[0]
-                else:
-                    upd = 'D.update(%r)' % (tuple(fan),)
-                out.append(pad + '_t = %s' % val)
-                out.append(pad + 'if V[%s] != _t:' % k)
-                out.append(pad + '    V[%s] = _t' % k)
-                out.append(pad + '    ' + upd)
+            out.append(pad + 'V[%s] = %s' % (k, val))
+        out.extend(epi)
         return '\n'.join(out)
+
+    @staticmethod
+    def _upd(pids):
+        if len(pids) == 1:
+            return 'D.add(%d)' % pids[0]
+        return 'D.update(%r)' % (tuple(pids),)
